@@ -198,8 +198,11 @@ def report(mod, prop, tier, seed, merged, dead, nsh, wall):
           "level": getattr(mod, "LEVEL", "exploration"), "coverage": cov,
           "assumptions": list(getattr(mod, "ASSUMPTIONS", [])), "wall_s": round(wall, 2),
           "violations": len(new)}
-    os.makedirs(os.path.join(H.VERIF, "evidence"), exist_ok=True)
-    evp = os.path.join(H.VERIF, "evidence", f"{prop}.json")
+    # evidence/<id>.json describes runs against /repo itself; a sensitivity run against a scratch copy (VERIF_REPO set to
+    # something else by mutants/run.py or tools/verify_seeded.py) writes under .work/ instead
+    evdir = os.path.join(H.VERIF, "evidence") if os.path.realpath(H.REPO) == "/repo" else os.path.join(H.VERIF, ".work", "evidence-scratch")
+    os.makedirs(evdir, exist_ok=True)
+    evp = os.path.join(evdir, f"{prop}.json")
     with open(evp + ".tmp", "w") as f:
         json.dump(ev, f, indent=1)
     os.replace(evp + ".tmp", evp)
